@@ -111,6 +111,8 @@ pub fn two_sec() -> Alphabet {
             evs.push(sell(d, tk, "4", &format!("{}", p + 10), "0.5"));
             evs.push(sell(d, tk, "10", &format!("{}", p + 11), "0"));
         }
+        // a purchase well outside every 30-day window
+        evs.push(buy(off(b, 45), tk, "10", &format!("{}", 16 + 3 * k), "1"));
         evs.push(split(off(b, -20), tk, "2"));
         evs.push(split(off(b, 5), tk, "2"));
         evs.push(capret(off(b, -10), tk, "10", "5", "0"));
@@ -285,4 +287,27 @@ pub fn two_sec_fills() -> Alphabet {
     r.one_sell = false;
     r.one_buy = false;
     Alphabet::new("two-sec-fills", evs, r)
+}
+
+/// `events-reduced` (C03/C11): few dates, explored deeper: a sale, a split inside its 30-day window, the repurchase,
+/// and adjustments after it.
+pub fn events_reduced() -> Alphabet {
+    let b = base();
+    let mut evs = vec![];
+    evs.push(buy(off(b, -40), "X", "10", "10", "1"));
+    evs.push(sell(off(b, 0), "X", "4", "20", "0.5"));
+    evs.push(sell(off(b, 0), "X", "10", "21", "0"));
+    evs.push(split(off(b, 2), "X", "2"));
+    evs.push(unsplit(off(b, 2), "X", "2"));
+    evs.push(buy(off(b, 5), "X", "10", "13", "1"));
+    evs.push(buy(off(b, 5), "X", "3", "12", "0"));
+    evs.push(sell(off(b, 5), "X", "4", "25", "0"));
+    for o in [7i64, 20] {
+        evs.push(capret(off(b, o), "X", "10", "5", "0"));
+        evs.push(capret(off(b, o), "X", "10", "6", "1"));
+        evs.push(accum(off(b, o), "X", "10", "7", "0"));
+    }
+    evs.push(split(off(b, 12), "X", "2"));
+    evs.push(sell(off(b, 30), "X", "5", "30", "1"));
+    Alphabet::new("events-reduced", evs, Rules::STRICT)
 }
